@@ -538,7 +538,12 @@ def run(ctx):
     if not ok:
         ctx.obligation_broken("stage G: Gen/C01.lean cannot be regenerated from src/liblzma/{lzma,rangecoder}", log)
     # P
-    p_ok = lean_stage_retry(ctx, ["XzVerif.Props.C01", "XzVerif.Props.C01EndToEnd", "XzVerif.Props.C01EndToEndEx",
+    # G (scalar kernels translated from the clang AST): Props/C01Bound.lean is about `lzma2_bound` as the source computes it today
+    # (the uncompressed fallback of the Block encoders stores that value as the Compressed Size); kernels bridged for other
+    # properties are regenerated along with it but only logged here
+    import kernels_stage
+    kernels_stage.run_stage(ctx)
+    p_ok = lean_stage_retry(ctx, ["XzVerif.Props.C01", "XzVerif.Props.C01Bound", "XzVerif.Props.C01EndToEnd", "XzVerif.Props.C01EndToEndEx",
                                   "XzVerif.Props.C01EndToEndEx2", "XzVerif.Props.C01EndToEndAll"], ["xzm_c01"]) if ok else False
     okh, log, exe = build_harness(h1, h2)
     if not okh:
